@@ -14,6 +14,7 @@ import ast
 import itertools
 import sys
 
+from ..consteval import NotConstant
 from ..repo import AnalysisError, attr_chain, norm, walk_no_nested
 from ..cfg import CFG, node_calls
 from ..partition import MiniInterp, Opaque, FRESH
@@ -504,46 +505,73 @@ def svg_reference_and_css_families(ctx):
     r.rule("R9.9", "non-local url() references in SVG presentation attributes are stripped whatever the case / length", floor=4)
     r.rule("R9.10", "CSS property acceptance consults the configured lists only", floor=1)
     at = ctx.repo.func(REL, "Filter.allowed_token")
-    subs = [c for c in ast.walk(at.node) if isinstance(c, ast.Call) and norm(c.func) == "re.sub" and c.args and "url" in str(ce.try_eval(c.args[0], at.module))]
-    # the same pattern compiled once at module level: `_name = re.compile(<pattern>[, flags])` ... `_name.sub(' ', value)`
+    from ..partition import MiniInterp, Opaque
+    loops = [n for n in ast.walk(at.node) if isinstance(n, ast.For) and norm(n.iter) in ("self.svg_attr_val_allows_ref",) and isinstance(n.target, ast.Name)]
     precompiled = {}
     for st in at.module.tree.body:
         if isinstance(st, ast.Assign) and len(st.targets) == 1 and isinstance(st.targets[0], ast.Name) and isinstance(st.value, ast.Call) and \
-                norm(st.value.func) == "re.compile" and st.value.args and "url" in str(ce.try_eval(st.value.args[0], at.module)):
+                norm(st.value.func) == "re.compile" and st.value.args:
             precompiled[st.targets[0].id] = st.value
-    psubs = [c for c in ast.walk(at.node) if isinstance(c, ast.Call) and isinstance(c.func, ast.Attribute) and c.func.attr == "sub" and
-             isinstance(c.func.value, ast.Name) and c.func.value.id in precompiled]
-    if len(subs) + len(psubs) != 1:
-        r.idiom("R9.9", False, "svg-url-reference", at.where, "the url() stripping substitution of allowed_token was not found")
+
+    def flag_of(exprs):
+        return _re.I if any(norm(x) in ("re.I", "re.IGNORECASE") for x in exprs) else 0
+    if len(loops) != 1:
+        r.idiom("R9.9", False, "svg-url-reference", at.where, "the loop over svg_attr_val_allows_ref in allowed_token was not found")
     else:
-        if psubs:
-            comp = precompiled[psubs[0].func.value.id]
-            pat = ce.try_eval(comp.args[0], at.module)
-            flagexprs = [norm(a) for a in comp.args[1:]] + [norm(k.value) for k in comp.keywords if k.arg == "flags"]
-            flags = _re.I if any(x in ("re.I", "re.IGNORECASE") for x in flagexprs) else 0
-            subs = psubs
-        else:
-            pat = ce.try_eval(subs[0].args[0], at.module)
-            flags = 0
-        for k in (subs[0].keywords if not psubs else []):
-            if k.arg == "flags":
-                flags = {"re.I": _re.I, "re.IGNORECASE": _re.I}.get(norm(k.value), 0)
-        if not psubs and len(subs[0].args) > 4:
-            flags = {"re.I": _re.I, "re.IGNORECASE": _re.I}.get(norm(subs[0].args[4]), 0)
-        try:
-            rx = _re.compile(pat, flags)
-        except Exception:       # noqa: BLE001
-            rx = None
-        if rx is None:
-            r.idiom("R9.9", False, "svg-url-reference", at.where, "the url() pattern %r could not be compiled" % (pat,))
-        else:
-            for val, strip in (("url(http://e.example/a.svg#x)", True), ("URL(http://e.example/a.svg#x)", True), ("url(x)", True), ("Url( x.svg )", True),
-                               ("url(#local)", False), ("red", False)):
-                out = rx.sub(" ", val)
-                r.check("R9.9", ("(" not in out) == strip if strip else out == val, "svg-url-reference[%s]" % val, "%s:%d" % (REL, subs[0].lineno),
-                        "an SVG presentation attribute with the value %r comes out as %r: %s" % (
-                            val, out, "the non-local reference survives (pattern %r%s)" % (pat, "" if flags else ", case-sensitive") if strip
-                            else "a value that is no external reference is altered"), detail={"out": out})
+        loop = loops[0]
+        K = (None, "fill")
+        # (value, does it hold a reference to something outside the document?)
+        cases = (("url(http://e.example/a.svg#x)", True), ("URL(http://e.example/a.svg#x)", True), ("url(x)", True), ("Url( x.svg )", True),
+                 ("url(http://e.example/x", True), ("url(#a) url(http://b.example/y) url(http://c.example/z)", True), ("\\75rl(http://e.example/x)", True), ("u\\72l(x)", True),
+                 ("url(#local)", False), ("red", False), ("url(#a) none", False))
+        for val, external in cases:
+            def hook(node, local):
+                if isinstance(node, ast.Call):
+                    fn = norm(node.func)
+                    if fn in ("unescape", "html.unescape") and len(node.args) == 1:
+                        return ce.eval(node.args[0], at.module, local)
+                    if fn == "re.sub" and len(node.args) >= 3:
+                        a = [ce.eval(x, at.module, local) for x in node.args[:3]]
+                        if any(k.arg not in ("flags", "count") for k in node.keywords) or len(node.args) > 5:
+                            return NotImplemented
+                        fl = flag_of(list(node.args[4:5]) + [k.value for k in node.keywords if k.arg == "flags"])
+                        cnt = [ce.eval(x, at.module, local) for x in list(node.args[3:4]) + [k.value for k in node.keywords if k.arg == "count"]]
+                        return _re.sub(a[0], a[1], a[2], count=cnt[0] if cnt else 0, flags=fl)
+                    if isinstance(node.func, ast.Attribute) and node.func.attr == "sub" and isinstance(node.func.value, ast.Name) and \
+                            node.func.value.id in precompiled and len(node.args) == 2:
+                        comp = precompiled[node.func.value.id]
+                        pat = ce.eval(comp.args[0], at.module, None)
+                        fl = flag_of(list(comp.args[1:]) + [k.value for k in comp.keywords if k.arg == "flags"])
+                        return _re.sub(pat, ce.eval(node.args[0], at.module, local), ce.eval(node.args[1], at.module, local), flags=fl)
+                return NotImplemented
+
+            def stmt_hook(st, out, interp):
+                if isinstance(st, ast.Delete) and len(st.targets) == 1 and isinstance(st.targets[0], ast.Subscript) and norm(st.targets[0].value) == "attrs":
+                    out.env["attrs"].pop(interp.eval_expr(st.targets[0].slice, out.env), None)
+                    return False
+                return NotImplemented
+            key = "svg-url-reference[%s]" % val
+            init = ast.parse("attrs = {%r: %r}" % (K, val)).body
+            try:
+                res = MiniInterp(ce, at.module, expr_hook=hook, stmt_hook=stmt_hook).run(init + loop.body, {loop.target.id: K, "self": Opaque("self")})
+            except (AnalysisError, NotConstant) as e:
+                r.idiom("R9.9", False, key, "%s:%d" % (REL, loop.lineno), "the url() stripping of allowed_token is not decidable (%s)" % str(e)[:80])
+                continue
+            attrs = res.env.get("attrs")
+            if not isinstance(attrs, dict) or res.effects:
+                r.idiom("R9.9", False, key, "%s:%d" % (REL, loop.lineno), "the url() stripping of allowed_token has effects that were not recognised: %s" % [e.text for e in res.effects][:2])
+                continue
+            out = attrs.get(K)
+            if external:
+                rest = None if out is None else _re.sub(r"url\(#[^()\\]*\)", "", out)        # local references may stay
+                ok = out is None or ("(" not in rest and "\\" not in rest)
+            else:
+                ok = out == val
+            r.check("R9.9", ok, key, "%s:%d" % (REL, loop.lineno),
+                    "an SVG presentation attribute with the value %r comes out as %r: %s" % (
+                        val, out, "the non-local reference survives (the function name is case-insensitive, the closing parenthesis is optional "
+                        "at the end of the value, CSS escapes can spell `url`)" if external else "a value that is no external reference is altered"),
+                    detail={"out": out})
     sc = ctx.repo.func(REL, "Filter.sanitize_css")
     hard = []
     for t in ast.walk(sc.node):
@@ -628,13 +656,15 @@ def mutants():
     from ..selftest import TextMutant as T
     return [
         T("prefix-table-indexed", REL, "prefixes.get(ns, ns)", "prefixes[ns]", "R9.11"),
-        T("svg-url-case-sensitive", REL, "                                         unescape(attrs[attr]),\n                                         flags=re.I)", "                                         unescape(attrs[attr]))", "R9.9"),
+        T("svg-url-case-sensitive", REL, "                                         value,\n                                         flags=re.I)", "                                         value)", "R9.9"),
         T("uri-gate-double-delete", REL, "                    elif uri.scheme == 'data':", "                    if uri.scheme == 'data':", "R9.8"),
         T("url-strip-needs-nonspace", REL, "r'url\\s*\\([^)]*\\)\\s*'", "r'url\\s*\\(\\s*[^\\s)]+?\\s*\\)\\s*'", "R9.5"),
         T("url-strip-case-sensitive", REL, "[^)]*\\)\\s*', re.I).sub(' ', style)", "[^)]*\\)\\s*').sub(' ', style)", "R9.5"),
         T("url-strip-empty-replacement", REL, "[^)]*\\)\\s*', re.I).sub(' ', style)", "[^)]*\\)\\s*', re.I).sub('', style)", "R9.5"),
-        T("svg-url-strip-once", REL, "                                         unescape(attrs[attr]),\n                                         flags=re.I)",
-          "                                         unescape(attrs[attr]),\n                                         count=1, flags=re.I)", "R9.6"),
+        T("svg-url-strip-once", REL, "                                         value,\n                                         flags=re.I)",
+          "                                         value,\n                                         count=1, flags=re.I)", "R9"),
+        T("svg-url-needs-closing-paren", REL, "[^)]*\\)?',\n                                         ' ',\n                                         value,", "[^)]*\\)',\n                                         ' ',\n                                         value,", "R9.9"),
+        T("svg-url-escapes-pass", REL, "                    if \"\\\\\" in value:\n", "                    if \"\\\\\" in value and False:\n", "R9.9"),
         T("no-c1-strip", REL, "                val_unescaped = re.sub(\"[`\\x00-\\x20\\x7f-\\xa0\\\\s]+\", '',", "                val_unescaped = re.sub(\"[`\\x00-\\x20\\xa0\\\\s]+\", '',", "R9.3"),
         T("comment-through", REL, "        elif token_type == \"Comment\":\n            pass\n        else:\n            return token",
           "        else:\n            return token", "R9.1"),
